@@ -83,7 +83,11 @@ fn apply<M: BinaryMatrix>(m: &mut Option<M>, op: &Value, name: &str, mism: &mut 
                 let cnt = mx.count_ones(r, a, b);
                 let mut ones: Vec<usize> = mx.get_row_iter(r, a, b).filter(|(_, v)| *v == Octet::one()).map(|(c, _)| c).collect();
                 ones.sort();
-                if cnt != us(&op["count"]) {
+                // the detached copy of the iterator (used by the solver's first phase) must yield the same cells
+                let same_clone = mx.get_row_iter(r, a, b).collect::<Vec<_>>() == mx.get_row_iter(r, a, b).clone().collect::<Vec<_>>();
+                if !same_clone {
+                    Some(format!("get_row_iter({r}, {a}, {b}).clone() yields different cells than the iterator"))
+                } else if cnt != us(&op["count"]) {
                     Some(format!("count_ones({r}, {a}, {b}) = {cnt}"))
                 } else if ones != list(&op["ones"]) {
                     Some(format!("get_row_iter({r}, {a}, {b}) ones = {ones:?}"))
